@@ -786,10 +786,9 @@ func (r *fifoRunner) checkAfter(where, just string) {
 	for k, a := range r.age {
 		if !res[k] {
 			if a <= guarantee {
-				// dropped although at most `a` further insertions into its shard happened (guarantee: not before ⌈S/N⌉−2)
-				if a < guarantee {
-					r.add("C20", "dropped-too-early", fmt.Sprintf("%s: key %s dropped after only %d further insertions (guaranteed %d)", where, hx([]byte(k)), a, guarantee))
-				}
+				// the a-th further insertion into its shard dropped it: it did not survive ⌈S/N⌉−2 further insertions
+				// (the reading of `survives_guaranteed_insertions`: still resident after ⌈S/N⌉−2 of them)
+				r.add("C20", "dropped-too-early", fmt.Sprintf("%s: key %s was dropped by further insertion no. %d into its shard (guaranteed to survive %d)", where, hx([]byte(k)), a, guarantee))
 			}
 			delete(r.age, k)
 			delete(r.vals, k)
